@@ -258,6 +258,49 @@ def h_rewritten_miss(ctx, pool):
   ctx.witness('done')
 
 
+def h_snapshot(ctx, via):
+  """the action list goes on rewriting the frame *after* it was sent to the controller (output:CONTROLLER, set_dl_dst / set_vlan_vid, output:2): the
+  buffer behind the id in the packet-in holds the frame the packet-in showed, not what later actions made of it.  via: 'flow' (a flow entry with
+  that action list, the frame arrives on a port) or 'packet_out' (the controller hands the frame over with that action list)"""
+  env.get_core()
+  of = ctx.pox('pox.openflow.libopenflow_01'); swm = ctx.pox('pox.datapaths.switch'); pkt = ctx.pox('pox.lib.packet'); addrs = ctx.pox('pox.lib.addresses')
+  sw = swm.SoftwareSwitch(dpid=1, ports=4, miss_send_len=128, max_buffers=2)
+  sent = []
+  class Conn:
+    def send(c, msg): sent.append(msg)
+    def set_message_handler(c, h): pass
+  sw.set_connection(Conn())
+  outs = []
+  sw.addListenerByName('DpPacketOut', lambda e: outs.append((e.port.port_no, e.packet.pack())))
+  pay = list(ctx.bytes('pay', 6)); newdst = list(ctx.bytes('newdst', 6)); vid = ctx.int('vid', 0, 4095)
+  usevlan = bool(ctx.bool('rewrite_is_a_tag'))
+  hdr = [2, 0, 0, 0, 0, 9, 2, 0, 0, 0, 0, 1]
+  raw = env.tobytes(ctx, hdr + [0x08, 0x01] + pay)
+  if usevlan:
+    later = env.tobytes(ctx, hdr + [0x81, 0x00, vid >> 8, vid & 255, 0x08, 0x01] + pay); rewrite = of.ofp_action_vlan_vid(vlan_vid=vid)
+  else:
+    later = env.tobytes(ctx, newdst + hdr[6:] + [0x08, 0x01] + pay); rewrite = of.ofp_action_dl_addr.set_dst(addrs.EthAddr(env.tobytes(ctx, newdst)))
+  # 'packet_out_table': the first action sends the frame to the (empty) table instead, where it misses - a packet-in with a buffer id all the same
+  acts = [of.ofp_action_output(port=of.OFPP_TABLE if via == 'packet_out_table' else of.OFPP_CONTROLLER, max_len=0xffff), rewrite, of.ofp_action_output(port=2)]
+  def rx(msg): sw.rx_message(sw._connection, type(msg).unpack_new(msg.pack())[1])
+  if via == 'flow':
+    rx(of.ofp_flow_mod(command=0, priority=5, match=of.ofp_match(in_port=1), actions=acts))
+    sw.rx_packet(pkt.ethernet(raw), 1)
+  else:
+    rx(of.ofp_packet_out(in_port=1, data=raw, actions=acts))
+  pis = [m for m in sent if isinstance(m, of.ofp_packet_in)]
+  ctx.check('one packet-in; the rewritten frame leaves on port 2', len(pis) == 1 and len(outs) == 1 and outs[0][0] == 2 and ctx.Eq(outs[0][1], later))
+  if len(pis) != 1: return
+  _, pi = of.ofp_packet_in.unpack_new(pis[0].pack())
+  ctx.check('the packet-in shows the frame as it was at that action', ctx.Eq(pi.data, raw) and pi.total_len == len(raw))
+  ctx.check('a buffer id is handed out', pi.buffer_id is not None)
+  if pi.buffer_id is None: return
+  del outs[:]
+  rx(of.ofp_packet_out(buffer_id=pi.buffer_id, in_port=0xffff, actions=[of.ofp_action_output(port=3)]))
+  ctx.check('using the id emits exactly the frame the packet-in showed', len(outs) == 1 and outs[0][0] == 3 and ctx.Eq(outs[0][1], raw))
+  ctx.witness('tag' if usevlan else 'address')
+
+
 def obligations(tier):
   thorough = tier != 'quick'
   plans = PLANS_T + (['mmmPP', 'mcPmF', 'mPmPm', 'SmcPF', 'mmFPm', 'cmPPm'] if thorough else [])
@@ -271,6 +314,8 @@ def obligations(tier):
                      desc='buffer pool vs reference over symbolic histories'),
           Obligation('O5_rewritten_miss', h_rewritten_miss, [dict(pool=k) for k in (0, 1)], witnesses=('done',),
                      desc='a packet_out frame rewritten (tag pushed) and sent to the table where it misses: packet-in and buffer describe the rewritten frame'),
+          Obligation('O6_snapshot', h_snapshot, [dict(via=v) for v in ('flow', 'packet_out', 'packet_out_table')], witnesses=('tag', 'address'),
+                     desc='actions that go on rewriting the frame after output:CONTROLLER: the buffer holds the frame the packet-in showed'),
           Obligation('O4_bounce', h_history, bounce, witnesses=('done', 'bounced', 'released'), max_decisions=20000,
                      desc='a buffered packet sent to the controller again (packet_out / flow_mod with output:CONTROLLER): the new packet-in carries an id that really holds it'),
           Obligation('O3_two_switches', h_two_switches, [dict(pool2=k) for k in (0, 1, 2)], witnesses=('done', 'foreign-id', 'same-number'),
